@@ -121,10 +121,16 @@ type sys struct {
 	// relation): part of the canonical state, because an implementation may
 	// remember a rejected load (hidden state that Current() does not show)
 	rejected map[string]bool
+	// share: a new configuration is built by patching the previous one - target
+	// and request messages that did not change are carried over BY POINTER from
+	// the configuration object loaded last (the usual way to edit a map of
+	// messages); last is that object
+	share bool
+	last  *tpb.Configuration
 }
 
-func newSys(ops []loadOp, withBase bool) *sys {
-	s := &sys{ops: ops, replica: map[string]repEntry{}, rev: 10}
+func newSys(ops []loadOp, withBase, share bool) *sys {
+	s := &sys{ops: ops, replica: map[string]repEntry{}, rev: 10, share: share}
 	h := target.Handler{
 		Add:    func(u target.Update) { s.calls = append(s.calls, call{kind: "add", u: u, name: u.Name}) },
 		Update: func(u target.Update) { s.calls = append(s.calls, call{kind: "update", u: u, name: u.Name}) },
@@ -138,6 +144,7 @@ func newSys(ops []loadOp, withBase bool) *sys {
 		}
 		s.c = c
 		s.loaded = true
+		s.last = base
 		s.replica["t1"] = repEntry{base.Target["t1"], base.Request["r1"]}
 	} else {
 		s.c = target.NewConfig(h)
@@ -169,6 +176,18 @@ func (s *sys) Apply(i int) []seqmc.Violation {
 	cfg := o.cfg()
 	if cfg != nil {
 		cfg.Revision = s.rev + int64(o.rev)
+	}
+	if s.share && s.last != nil && cfg != nil {
+		for n, t := range cfg.Target {
+			if lt, ok := s.last.Target[n]; ok && lt != nil && proto.Equal(lt, t) {
+				cfg.Target[n] = lt
+			}
+		}
+		for n, r := range cfg.Request {
+			if lr, ok := s.last.Request[n]; ok && lr != nil && proto.Equal(lr, r) {
+				cfg.Request[n] = lr
+			}
+		}
 	}
 	before := s.c.Current()
 	s.calls = nil
@@ -259,6 +278,7 @@ func (s *sys) Apply(i int) []seqmc.Violation {
 	s.rev = cfg.Revision
 	s.loaded = true
 	s.rejected = nil
+	s.last = cfg
 	return nil
 }
 
@@ -311,8 +331,10 @@ func (harness) Specs(tier string) []seqmc.Spec {
 			names = append(names, o.name)
 		}
 		return []seqmc.Spec{
-			{Name: "from NewConfig " + label + " (closure)", Ops: names, Depth: 30, New: func() seqmc.Sys { fullMemory = full; return newSys(ops, false) }},
-			{Name: "from NewConfigWithBase " + label + " (closure)", Ops: names, Depth: 30, New: func() seqmc.Sys { fullMemory = full; return newSys(ops, true) }},
+			{Name: "from NewConfig " + label + " (closure)", Ops: names, Depth: 30, New: func() seqmc.Sys { fullMemory = full; return newSys(ops, false, false) }},
+			{Name: "from NewConfigWithBase " + label + " (closure)", Ops: names, Depth: 30, New: func() seqmc.Sys { fullMemory = full; return newSys(ops, true, false) }},
+			{Name: "from NewConfig " + label + ", unchanged messages carried over by pointer (closure)", Ops: names, Depth: 30, New: func() seqmc.Sys { fullMemory = full; return newSys(ops, false, true) }},
+			{Name: "from NewConfigWithBase " + label + ", unchanged messages carried over by pointer (closure)", Ops: names, Depth: 30, New: func() seqmc.Sys { fullMemory = full; return newSys(ops, true, true) }},
 		}
 	}
 	if tier == "thorough" {
